@@ -13,6 +13,8 @@
 (*  C16  MetaType == / cmp / hash agree with the DECLARED identities and   *)
 (*       form a total order; same identity => same definition             *)
 (*  C17  no definition lists a PhantomData member                          *)
+(*  C11  registering the corpus in another order gives the same registry   *)
+(*       up to a renaming of ids (`Perm` events)                           *)
 (***************************************************************************)
 EXTENDS TypeExpr, ScaleValue, Json, IOUtils
 CONSTANTS Check, DocsOn
@@ -49,6 +51,8 @@ AcceptMatrix(m) ==
     /\ \A i, j \in 1..N : m.eq[i][j] => m.heq[i][j]                             \* equal => equal hashes
     /\ \A i, j \in 1..N : (ex[i].decl = ex[j].decl) => ex[i].info = ex[j].info  \* identities are coherent
 AcceptValue(v) == Check = "C04" => DecodesTo(reg.types, reg.ids[v.i + 1], v.bytes, v.tree)
+\* C11 (iii) on real types: the corpus registered in another order gives the same registry up to renaming
+AcceptPerm(e) == Check = "C11" => RegIso(e.types1, e.types2, {<<e.ids1[i], e.ids2[i]>> : i \in 1..Len(e.ids1)})
 Next == /\ l <= Len(Rec)
         /\ LET e == Rec[l] IN
            CASE e.ev = "Expr" -> /\ ex' = (IF e.i = 0 THEN <<>> ELSE ex) \o <<[e |-> e.e, tid |-> e.tid, decl |-> e.decl, info |-> e.info]>>
@@ -56,6 +60,7 @@ Next == /\ l <= Len(Rec)
              [] e.ev = "Reg" -> AcceptReg(e) /\ reg' = e /\ ex' = ex
              [] e.ev = "Matrix" -> AcceptMatrix(e) /\ UNCHANGED <<ex, reg>>
              [] e.ev = "Value" -> AcceptValue(e) /\ UNCHANGED <<ex, reg>>
+             [] e.ev = "Perm" -> AcceptPerm(e) /\ UNCHANGED <<ex, reg>>
         /\ l' = l + 1
 Spec == Init /\ [][Next]_vars
 Track == TLCSet(1, l)
